@@ -1,4 +1,5 @@
 import TealerModel.Proto
+import TealerModel.Avm
 open Tealer Tealer.Proto
 
 def emit (out : IO.FS.Stream) (s : String) : IO Unit := out.putStrLn s
@@ -66,18 +67,76 @@ def handleProg (out : IO.FS.Stream) (id : String) (pathSpec : String) (toks : Li
             | .ok ps => emit out s!"paths {d.name} {"|".intercalate (ps.map renderPath)}"
   emit out s!"end {id}"
 
-partial def loop (inp out : IO.FS.Stream) : IO Unit := do
+def parseVal (s : String) : Option Avm.Val :=
+  let s := pdecode s
+  if s.startsWith "i" then (s.drop 1).toNat?.map Avm.Val.int
+  else if s.startsWith "b" then some (.bytes (s.drop 1).toString)
+  else none
+
+def parseTxn (spec : String) : Option Avm.Txn := do
+  let fs ← (spec.splitOn ";").filter (· != "") |>.mapM fun kv =>
+    match kv.splitOn "=" with
+    | [k, v] => (parseVal v).map fun v => (pdecode k, v)
+    | _ => none
+  pure { fields := fs }
+
+/-- for each pc: (block idx, is first instruction of its block) -/
+def pcBlocks (prog : List Ins) (t : Teal) : List (Nat × Bool) :=
+  prog.map fun i =>
+    match t.allBlocks.find? fun b => b.ins.any (·.line == i.line) with
+    | some b => (b.idx, (b.ins.head?.map (·.line)) == some i.line)
+    | none => (999999, false)
+
+def handleRun (out : IO.FS.Stream) (prog : List Ins) (pcb : List (Nat × Bool)) (id : String) (args : List String) : IO Unit := do
+  match args with
+  | [fuel, size, self, creator, txns] =>
+    match fuel.toNat?, size.toNat?, self.toNat?, (txns.splitOn "|").mapM parseTxn with
+    | some fuel, some size, some self, some txns =>
+      let e : Avm.Env := { size, self, txns, creator := pdecode creator }
+      let r := Avm.run prog e fuel
+      let (tag, why, tr) := match r with
+        | .accept t => ("accept", "-", t)
+        | .reject w t => ("reject", w, t)
+        | .outOfFuel t => ("fuel", "-", t)
+        | .unsupported w t => ("unsupported", pencode w, t)
+      -- block-entry sequence and the single-entry / sequential-execution check
+      let (blocks, wf, _) := tr.foldl (fun (acc, wf, prev) pc =>
+        let (b, first) := pcb[pc]?.getD (999999, false)
+        let seq := match prev with
+          | some (ppc, pb) => (pc == ppc + 1 && pb == b && !first) || first
+          | none => first
+        (if first then b :: acc else acc, wf && seq, some (pc, b))) (([] : List Nat), true, (none : Option (Nat × Nat)))
+      emit out s!"res {id} {tag} {why} blocks={natList blocks.reverse} wf={if wf then 1 else 0} steps={tr.length}"
+    | _, _, _, _ => emit out s!"res {id} badenv"
+  | _ => emit out s!"res {id} badrequest"
+
+partial def loop (inp out : IO.FS.Stream) (prog : List Ins) (pcb : List (Nat × Bool)) : IO Unit := do
   let line ← inp.getLine
   if line.isEmpty then return ()
   let line := (line.dropRightWhile (fun c => c == '\n' || c == '\r'))
   match line.splitOn " " with
-  | "prog" :: id :: path :: toks => handleProg out id path (toks.filter (· != ""))
-  | [""] => pure ()
-  | _ => emit out "err request"
-  out.flush
-  loop inp out
+  | "prog" :: id :: path :: toks =>
+    handleProg out id path (toks.filter (· != ""))
+    out.flush
+    loop inp out prog pcb
+  | "semprog" :: toks =>
+    match (toks.filter (· != "")).mapM parseIns with
+    | some ins =>
+      match parseTeal ins with
+      | .ok t => emit out "semprog ok"; out.flush; loop inp out ins (pcBlocks ins t)
+      | .error e => emit out s!"semprog err {e}"; out.flush; loop inp out [] []
+    | none => emit out "semprog err decode"; out.flush; loop inp out [] []
+  | "run" :: id :: args =>
+    handleRun out prog pcb id args
+    out.flush
+    loop inp out prog pcb
+  | [""] => loop inp out prog pcb
+  | _ =>
+    emit out "err request"
+    out.flush
+    loop inp out prog pcb
 
 def main : IO Unit := do
   let inp ← IO.getStdin
   let out ← IO.getStdout
-  loop inp out
+  loop inp out [] []
